@@ -196,6 +196,10 @@ theorem headStep_fields (P : Problem α) (pr : Params α) (stop : Nat → Bool) 
   simp only []
   split_ifs <;> refine ⟨?_, ?_, ?_, ?_, ?_, ?_, ?_⟩ <;> first | rfl | trivial | omega
 
+theorem headStep_fuelOut (P : Problem α) (pr : Params α) (stop : Nat → Bool) (oot : Bool)
+    (s : St α D) : (headStep P pr stop oot s).1.fuelOut = s.fuelOut := by
+  unfold headStep; simp only []
+
 /-- The status computed at a loop head is the generated chain on the head state, and `ε` is the
     generated criterion of the head's current iterate. -/
 theorem headStep_status (P : Problem α) (pr : Params α) (stop : Nat → Bool) (oot : Bool)
@@ -374,6 +378,37 @@ theorem iterBody_tick_mono (P : Problem α) (dir : Direction D α) (pr : Params 
     have hu := updateStage_fields P dir pr (iterLs P dir pr stop s)
     rw [(iterBody_advanced P dir pr stop s eps hst').2.2.2.2.2]
     omega
+
+/-! ### Initialisation -/
+
+theorem initQub_ticks (P : Problem α) (pr : Params α) (f : Nat) (c : Iterate α) (t b : Nat) :
+    (initQub P pr f c t b).2.1 + 2 * b = t + 2 * (initQub P pr f c t b).2.2.1 := by
+  induction f generalizing c t b with
+  | zero => simp [initQub]
+  | succ f ih =>
+    unfold initQub
+    split_ifs
+    · have := ih (evalPsiHat P pr (evalProxGradStep P { c with gamma := c.gamma / 2, L := c.L * 2 }))
+        (t + 2) (b + 1)
+      omega
+    · simp
+
+theorem initQub_ticks0 (P : Problem α) (pr : Params α) (f : Nat) (c : Iterate α) (t : Nat) :
+    (initQub P pr f c t 0).2.1 = t + 2 * (initQub P pr f c t 0).2.2.1 := by
+  have := initQub_ticks P pr f c t 0; omega
+
+/-- Calls made before the main loop: `2` (finite-difference Lipschitz estimate) or `1`
+    (`ψ, ∇ψ` at `x₀`), `2` for the first proximal-gradient step, `2` per initial step-size backtrack. -/
+theorem initState_ticks (P : Problem α) (d0 : D) (pr : Params α) (x0 gV : Vec α) (gS : α) :
+    match initState P d0 pr x0 gV gS with
+    | .inl t => t ≤ 2
+    | .inr s => s.tick = (if pr.L0 ≤ 0 then 2 else 1) + 2 + 2 * s.stats.stepsizeBacktracks := by
+  unfold initState
+  simp only []
+  split_ifs with h1 h2 h3 <;> simp only [stats0] <;>
+    first
+    | omega
+    | (rw [initQub_ticks0])
 
 /-! ### The run as a sequence of loop heads -/
 
